@@ -139,6 +139,8 @@ class Engine:
                 return AL.isinstance_al(v, nm)
             if nm == 'builtins.dict':
                 return isinstance(v, RecordV) or (isinstance(v, Ref) and isinstance(run.deref(v), MapO))
+            if nm in ('typing.List', 'typing.Dict'):
+                nm = 'builtins.list' if nm == 'typing.List' else 'builtins.dict'
             if nm == 'builtins.list':
                 return (isinstance(v, SeqV) and v.pylist) or \
                        (isinstance(v, Ref) and isinstance(run.deref(v), (ListO, SeqO, SymListO)))
